@@ -53,6 +53,9 @@ class CFG:
 
     def _exc_edges(self, n: int, ctx: "_Ctx") -> None:
         for h in ctx.handlers:
+            ht = self.nodes[h].expr
+            if isinstance(ht, ast.Name) and ht.id == '__inline_return__':
+                continue            # the handler of a synthetic jump catches nothing else
             self._edge(n, h, 'exc')
 
     def _seq(self, stmts: List[ast.stmt], follow: int, ctx: "_Ctx") -> int:
@@ -112,10 +115,21 @@ class CFG:
             self._exc_edges(n, ctx)
             self._edge(n, self.exit, 'return')
             return n
+        if isinstance(st, ast.Raise) and isinstance(st.exc, ast.Name) and st.exc.id == '__inline_return__':
+            # synthetic jump out of an inlined helper body (sa/inline.py): one edge, to its own handler; not a raise
+            n = self._new('jump', st, None, L)
+            for h in ctx.handlers:
+                ht = self.nodes[h].expr
+                if isinstance(ht, ast.Name) and ht.id == '__inline_return__':
+                    self._edge(n, h, 'jump')
+                    break
+            return n
         if isinstance(st, ast.Raise):
             n = self._new('raise', st, st.exc, L)
             if ctx.handlers:
                 for h in ctx.handlers:
+                    if isinstance(self.nodes[h].expr, ast.Name) and self.nodes[h].expr.id == '__inline_return__':
+                        continue
                     self._edge(n, h, 'raise')
             self._edge(n, self.raise_exit, 'raise')
             return n
@@ -132,6 +146,8 @@ class CFG:
             n = self._new('raise', st, None, L)
             if ctx.handlers:
                 for h in ctx.handlers:
+                    if isinstance(self.nodes[h].expr, ast.Name) and self.nodes[h].expr.id == '__inline_return__':
+                        continue
                     self._edge(n, h, 'raise')
             self._edge(n, self.raise_exit, 'raise')
             return n
